@@ -204,7 +204,8 @@ PROPS = {
     level_note="Model M10/M11; tokio / futures contracts trusted; the status race of the remark theorem was searched for on the real code and not exhibited (it needs flush_and_cancel_executor concurrent with the stream's own end).",
     lean=["C12"],
     scenarios=[dict(bin="exec", args=["sub=close"], runs=200, model_name="M11 Exec", kinds=["close_callback_count", "callback_before_last_item", "status_not_ended", "finish_before_start", "panic"]),
-               dict(bin="exec", args=["sub=account"], runs=100, model_name="M10 Exec", kinds=["close_callback_count", "panic"])],
+               dict(bin="exec", args=["sub=account"], runs=100, model_name="M10 Exec", kinds=["close_callback_count", "panic"]),
+               dict(bin="exec", args=["sub=transition"], runs=80, model=False, single=True, model_name="(oracle only: log-channel Multi, oldies -> newies)", kinds=["new_before_old", "transition_lost_or_duplicated", "close_callback_count", "close_failed", "panic"])],
     rule="as C06/C11; DISTINCT by event log",
     trusted_base=TB_COMMON + ["tokio and futures 0.3 contracts as in C11"],
     assumptions=[],
